@@ -197,26 +197,50 @@ RNG_FACTORIES = ("default_rng", "RandomState", "Generator", "Random", "SeedSeque
 
 
 def _tainted_by_params(fnode, params):
-    """names whose value may depend on a parameter (data or control dependence, flow-insensitive fixed point)"""
+    """names (and `self.attr` cells) whose value may depend on a parameter (data or control dependence, flow-insensitive fixed point)"""
     taint = set(params)
     changed = True
 
+    def cell(x):
+        if isinstance(x, ast.Name):
+            return x.id
+        if isinstance(x, ast.Attribute) and isinstance(x.value, ast.Name):
+            return "%s.%s" % (x.value.id, x.attr)
+        return None
+
     def mentions(node):
-        return any(isinstance(x, ast.Name) and x.id in taint for x in ast.walk(node))
+        for x in ast.walk(node):
+            if isinstance(x, ast.Attribute) and cell(x) in taint:
+                return True
+            if isinstance(x, ast.Name) and x.id in taint:
+                return True
+        return False
+
+    def add_target(t):
+        nonlocal changed
+        if isinstance(t, (ast.Tuple, ast.List)):
+            for e in t.elts:
+                add_target(e)
+            return
+        if isinstance(t, ast.Starred):
+            add_target(t.value)
+            return
+        while isinstance(t, ast.Subscript):
+            t = t.value
+        c = cell(t)
+        if c is not None and c not in taint:
+            taint.add(c)
+            changed = True
     while changed:
         changed = False
 
         def visit(stmts, ctrl):
-            nonlocal changed
             for s in stmts:
                 if isinstance(s, (ast.Assign, ast.AugAssign, ast.AnnAssign)):
                     tg = s.targets if isinstance(s, ast.Assign) else [s.target]
                     if s.value is not None and (ctrl or mentions(s.value)):
                         for t in tg:
-                            for x in ast.walk(t):
-                                if isinstance(x, ast.Name) and x.id not in taint:
-                                    taint.add(x.id)
-                                    changed = True
+                            add_target(t)
                 elif isinstance(s, (ast.If, ast.While)):
                     c2 = ctrl or mentions(s.test)
                     visit(s.body, c2)
@@ -224,10 +248,7 @@ def _tainted_by_params(fnode, params):
                 elif isinstance(s, ast.For):
                     c2 = ctrl or mentions(s.iter)
                     if c2:
-                        for x in ast.walk(s.target):
-                            if isinstance(x, ast.Name) and x.id not in taint:
-                                taint.add(x.id)
-                                changed = True
+                        add_target(s.target)
                     visit(s.body, c2)
                     visit(s.orelse, c2)
                 elif isinstance(s, (ast.With, ast.Try)):
@@ -499,7 +520,7 @@ def domain_guard(chk, prog, refs=None):
     return n
 
 
-ALL = {"NO-PARAM-WRITE": lambda chk, prog, files: no_param_write(chk, prog, files), "ZERO-AS-MISSING": lambda chk, prog, files: zero_as_missing(chk, prog, files), "POSE-DIV": lambda chk, prog, files: pose_div(chk, prog, files), "UNIT-GUARD": lambda chk, prog, files: unit_guard(chk, prog, files), "PARAM-DEAD": param_dead, "SWAPPED-ARGS": swapped_args, "METHOD-TRUTH": method_truth, "VIEW-SWAP": view_swap,
+ALL = {"STALE-DERIVED": lambda chk, prog, files: stale_derived(chk, prog, files), "CACHE-KEY": lambda chk, prog, files: cache_key(chk, prog, files), "NO-PARAM-WRITE": lambda chk, prog, files: no_param_write(chk, prog, files), "ZERO-AS-MISSING": lambda chk, prog, files: zero_as_missing(chk, prog, files), "POSE-DIV": lambda chk, prog, files: pose_div(chk, prog, files), "UNIT-GUARD": lambda chk, prog, files: unit_guard(chk, prog, files), "PARAM-DEAD": param_dead, "SWAPPED-ARGS": swapped_args, "METHOD-TRUTH": method_truth, "VIEW-SWAP": view_swap,
        "MODULE-STATE": module_state, "SHADOW-REBIND": shadow_rebind, "CASE-MIXED": case_mixed, "INT-ALLOC": int_alloc}
 
 
@@ -522,6 +543,17 @@ class _LintFixture(_np.ndarray):
         return obj
     def is_ok(self):
         return True
+    def derive(self, v):
+        self.vec = [self.mode, v]
+        self.mode = v
+    def cached(self, lat, lon, height):
+        key = (lat, lon)
+        fresh = key != self._key
+        r = lat + height
+        if fresh:
+            self.table = r * lon
+        self._key = key
+        return self.table
     def rebind(self):
         self.A = self.A/2
         if self.is_ok:
@@ -557,7 +589,7 @@ def _lint_fixture_alloc(p):
 '''
 FIXTURE_HOST = "ahrs/common/frames.py"
 # rule -> properties that own it (None = every property, on its anchor files)
-OWNERS = {"NO-PARAM-WRITE": {"C01", "C02", "C03", "C04", "C06", "C07", "C09", "C10", "C12", "C13", "C18", "C20"}, "ZERO-AS-MISSING": None, "POSE-DIV": {"C03", "C04", "C05", "C13", "C02", "C07"}, "UNIT-GUARD": None, "PARAM-DEAD": None, "SWAPPED-ARGS": None, "METHOD-TRUTH": None, "VIEW-SWAP": None, "INT-ALLOC": None, "CASE-MIXED": None,
+OWNERS = {"STALE-DERIVED": None, "CACHE-KEY": None, "NO-PARAM-WRITE": {"C01", "C02", "C03", "C04", "C06", "C07", "C09", "C10", "C12", "C13", "C18", "C20"}, "ZERO-AS-MISSING": None, "POSE-DIV": {"C03", "C04", "C05", "C13", "C02", "C07"}, "UNIT-GUARD": None, "PARAM-DEAD": None, "SWAPPED-ARGS": None, "METHOD-TRUTH": None, "VIEW-SWAP": None, "INT-ALLOC": None, "CASE-MIXED": None,
           "SHADOW-REBIND": None,
           # process-wide hidden state only contradicts properties that promise repeatability / isolation / history independence
           "MODULE-STATE": {"C06", "C15", "C19"}}
@@ -880,4 +912,139 @@ def no_param_write(chk, prog, files):
                 chk.finding("NO-PARAM-WRITE", f.module.rel, f.qname, "%s: %s" % (ph[1], inner["stmt"]),
                             "in-place write reaches the caller's %s%s (%s)" % (who, via, r["what"]), line=inner.get("line") or r["line"])
     chk.counts["NO-PARAM-WRITE.callables"] = chk.counts.get("NO-PARAM-WRITE.callables", 0) + n
+    return n
+
+
+# ------------------------------------------------------------------------------------------------------------- CACHE-KEY
+def cache_key(chk, prog, files):
+    """A method that recomputes part of its state only when a key built from some of its arguments differs from the key remembered on the object
+    (`key = (a, b); fresh = key != self._key; if fresh: ...; self._key = key`) must put into the key every argument the skipped computation depends on.
+    Dependencies are traced by data flow from each parameter through the locals into (i) the statements guarded by the comparison and (ii) the other
+    arguments of calls that receive the comparison's result as a flag."""
+    n = 0
+    for f in _funcs(prog, files):
+        if f.cls is None:
+            continue
+        params = [p for p in _params(f)]
+        if not params:
+            continue
+        # remembered keys: self.<attr> = <K> somewhere in the function, and a comparison of <K> (or a local bound to it) with self.<attr>
+        stores = {}
+        for s in ast.walk(f.node):
+            if isinstance(s, ast.Assign) and len(s.targets) == 1 and isinstance(s.targets[0], ast.Attribute) and isinstance(s.targets[0].value, ast.Name) \
+                    and s.targets[0].value.id == "self":
+                stores[s.targets[0].attr] = s.value
+        local_defs = {}
+        for s in ast.walk(f.node):
+            if isinstance(s, ast.Assign) and len(s.targets) == 1 and isinstance(s.targets[0], ast.Name):
+                local_defs.setdefault(s.targets[0].id, []).append(s.value)
+        taint_of = {p: _tainted_by_params(f.node, [p]) for p in params}
+
+        def deps(node):
+            out = set()
+            for x in ast.walk(node):
+                c = x.id if isinstance(x, ast.Name) else ("%s.%s" % (x.value.id, x.attr) if isinstance(x, ast.Attribute) and isinstance(x.value, ast.Name) else None)
+                if c is not None and c != "self":
+                    for p in params:
+                        if c in taint_of[p]:
+                            out.add(p)
+            return out
+        for cmp_ in ast.walk(f.node):
+            if not (isinstance(cmp_, ast.Compare) and len(cmp_.ops) == 1 and isinstance(cmp_.ops[0], (ast.NotEq, ast.Eq, ast.Is, ast.IsNot))):
+                continue
+            sides = [cmp_.left, cmp_.comparators[0]]
+            attr = next((x.attr for x in sides if isinstance(x, ast.Attribute) and isinstance(x.value, ast.Name) and x.value.id == "self" and x.attr in stores), None)
+            if attr is None:
+                continue
+            other = sides[1] if (isinstance(sides[0], ast.Attribute) and getattr(sides[0], "attr", None) == attr) else sides[0]
+            stored = stores[attr]
+            if ast.dump(stored) != ast.dump(other):
+                continue                          # the remembered value is not the compared key
+            key_expr = other
+            if isinstance(other, ast.Name) and other.id in local_defs:
+                key_expr = local_defs[other.id][-1]
+            key_params = deps(key_expr)
+            if not key_params:
+                continue
+            n += 1
+            # what the comparison guards
+            flags = set()
+            guarded_nodes = []
+            for s in ast.walk(f.node):
+                if isinstance(s, ast.Assign) and s.value is cmp_ and isinstance(s.targets[0], ast.Name):
+                    flags.add(s.targets[0].id)
+
+            def is_flag(t):
+                return t is cmp_ or (isinstance(t, ast.Name) and t.id in flags) or (isinstance(t, ast.UnaryOp) and isinstance(t.op, ast.Not) and is_flag(t.operand))
+            for s in ast.walk(f.node):
+                if isinstance(s, ast.If) and is_flag(s.test):
+                    guarded_nodes.extend(s.body)
+                    guarded_nodes.extend(s.orelse)
+                if isinstance(s, ast.Call) and any(is_flag(k.value) for k in s.keywords) or (isinstance(s, ast.Call) and any(is_flag(a) for a in s.args)):
+                    guarded_nodes.extend([a for a in s.args if not is_flag(a)])
+                    guarded_nodes.extend([k.value for k in s.keywords if not is_flag(k.value)])
+            need = set()
+            for g in guarded_nodes:
+                need |= deps(g)
+            missing = sorted(need - key_params)
+            if missing:
+                chk.finding("CACHE-KEY", f.module.rel, f.qname, "key self.%s = %s" % (attr, ast.unparse(key_expr)[:60]),
+                            "the work skipped while `%s` is unchanged also depends on %s, which the remembered key (%s) does not contain: a call that changes only %s reuses stale results"
+                            % (ast.unparse(cmp_)[:60], ", ".join("`%s`" % m for m in missing), ", ".join(sorted(key_params)), "/".join(missing)), line=cmp_.lineno)
+    chk.counts["CACHE-KEY.keys"] = chk.counts.get("CACHE-KEY.keys", 0) + n
+    return n
+
+
+# ---------------------------------------------------------------------------------------------------------- STALE-DERIVED
+def stale_derived(chk, prog, files):
+    """Within one method:  self.A = f(self.B, ...)  and, later on the same path,  self.B = <something else>  without re-deriving self.A.
+    At the method's exit the object then exposes an A that describes the old B (a copy that went stale).  Value numbers decide `something else`:
+    re-assigning B to the very same value number is not a change."""
+    from .facts import Facts
+    n = 0
+    for f in _funcs(prog, files):
+        if f.cls is None or f.name in ("__init__", "__new__"):
+            continue
+        if not any(isinstance(x, ast.Attribute) and isinstance(x.ctx, ast.Store) and isinstance(x.value, ast.Name) and x.value.id == "self" for x in ast.walk(f.node)):
+            continue
+        selfn = f.params[0] if f.params else "self"
+
+        def self_write(fa, attr, stmt, st):
+            val = getattr(stmt, "value", None)
+            tgt_is_plain = isinstance(stmt, ast.Assign) and any(isinstance(t, ast.Attribute) and t.attr == attr for t in stmt.targets)
+            if val is None or not tgt_is_plain:
+                st.pop("dep:" + attr, None)
+                return
+            reads = {}
+            for x in ast.walk(val):
+                if isinstance(x, ast.Attribute) and isinstance(x.value, ast.Name) and x.value.id == selfn and x.attr != attr and isinstance(x.ctx, ast.Load):
+                    reads[x.attr] = st.get("s:" + x.attr) or ("S:" + x.attr)
+            if reads:
+                st["dep:" + attr] = tuple(sorted(reads.items())) + (("@line", stmt.lineno),)
+            else:
+                st.pop("dep:" + attr, None)
+        try:
+            fa = Facts(f, prog, callbacks={"self_write": self_write}).analyse()
+        except Exception:
+            continue
+        n += 1
+        seen = set()
+        for stmt, st in fa.returns:
+            if st is None:
+                continue
+            for k, v in st.items():
+                if not k.startswith("dep:"):
+                    continue
+                a = k[4:]
+                line = dict(v).get("@line")
+                for b, vn_then in v:
+                    if b == "@line":
+                        continue
+                    now = st.get("s:" + b) or ("S:" + b)
+                    if now != vn_then and (a, b) not in seen:
+                        seen.add((a, b))
+                        chk.finding("STALE-DERIVED", f.module.rel, f.qname, "self.%s derived from self.%s, which is re-assigned afterwards" % (a, b),
+                                    "`self.%s` is computed from `self.%s` and `self.%s` is then given a different value in the same method without re-deriving `self.%s`: "
+                                    "on return the two attributes describe different states" % (a, b, b, a), line=line)
+    chk.counts["STALE-DERIVED.methods"] = chk.counts.get("STALE-DERIVED.methods", 0) + n
     return n
